@@ -232,6 +232,12 @@ def ensure_and_stat(ck, ctx, rule="missing-is-dirty"):
         return False
     g_nf = C.bool_gate_edges(ctx, gb, pred_nf)
     okm = any(v == "Missing" and Q.gated(gcfg, bb, g_nf)[0] for v, bb in cons) and any(v == "Stamp" for v, bb in cons)
+    # what is stat'ed is the file the path *denotes* (symlinks followed), its modification time, for the path given
+    GR = ctx.res(gb)
+    meta = [(bb, t) for bb, t in gb.calls() if callee_of(t).startswith("std::fs::") and "metadata" in callee_of(t)]
+    okf = len(meta) == 1 and callee_of(meta[0][1]) == "std::fs::metadata" and strip(GR.arg(meta[0][0], 0))[0] == "param"
+    times = [callee_of(t).split("::")[-1] for _, t in gb.calls() if callee_of(t).startswith("std::fs::Metadata::")]
+    ck.ob(rule, "graph::stat|follows-links-mtime", okf and times == ["modified"], "graph::stat reads std::fs::metadata(path).modified() of its path argument: symlinks are followed, the time is the content's modification time (calls: %s, %s)" % ([callee_of(t) for _, t in meta], times), span=gb.loc, fn=gb.nname)
     ck.ob(rule, "graph::stat|missing-iff-notfound", okm and sum(1 for v, _ in cons if v == "Missing") == 1, "graph::stat yields Missing only for ErrorKind::NotFound and Stamp(modified) otherwise (%s)" % cons, span=gb.loc, fn=gb.nname)
 
 
